@@ -2,6 +2,7 @@ pub mod canon;
 pub mod drive;
 pub mod framework;
 pub mod gen;
+pub mod model;
 pub mod pathalg;
 pub mod props;
 pub mod scan;
